@@ -265,3 +265,435 @@ Lemma expr_eqb_eq : forall a b, expr_eqb a b = true -> a = b.
 Proof. exact (proj1 expr_eqb_eq_mut). Qed.
 Lemma exprs_eqb_eq : forall a b, exprs_eqb a b = true -> a = b.
 Proof. exact (proj2 expr_eqb_eq_mut). Qed.
+
+(* unfolding equations (cbn does not refold the mutual sibling of a section fixpoint) *)
+Definition seq_pt (es : exprs) : ptype :=
+  match es with ECons _ ENil => P_atom | _ => P_testlist_comp end.
+Definition args_pt (mid : bool) (args : exprs) : ptype :=
+  match args with ECons _ ENil => trailer_pt mid | _ => P_arglist end.
+
+Lemma inl_Tup : forall rule x r pt mid es,
+  inl rule x r pt mid (Tup es) = Tup (inl_es rule x r (seq_pt es) es).
+Proof. reflexivity. Qed.
+Lemma inl_Lst : forall rule x r pt mid es,
+  inl rule x r pt mid (Lst es) = Lst (inl_es rule x r (seq_pt es) es).
+Proof. reflexivity. Qed.
+Lemma inl_Call : forall rule x r pt mid f args,
+  inl rule x r pt mid (Call f args) =
+  Call (inl rule x r P_atom_expr true f) (inl_es rule x r (args_pt mid args) args).
+Proof. reflexivity. Qed.
+Lemma inl_es_nil : forall rule x r pt, inl_es rule x r pt ENil = ENil.
+Proof. reflexivity. Qed.
+Lemma inl_es_cons : forall rule x r pt e es,
+  inl_es rule x r pt (ECons e es) = ECons (inl rule x r pt false e) (inl_es rule x r pt es).
+Proof. reflexivity. Qed.
+
+Lemma seq_pt_ok : forall es, tightest (seq_pt es) = 1 /\ seq_pt es <> P_dictorsetmaker.
+Proof. intros [|? [|? ?]]; split; cbn; (reflexivity || discriminate). Qed.
+Lemma args_pt_ok : forall mid es, tightest (args_pt mid es) = 1 /\ args_pt mid es <> P_dictorsetmaker.
+Proof. intros [|] [|? [|? ?]]; split; cbn; (reflexivity || discriminate). Qed.
+
+(* ------------------------------------------------- 4 inline keeps the tree wf *)
+Lemma elen_inl_es : forall rule x r pt es, elen (inl_es rule x r pt es) = elen es.
+Proof. intros. induction es; [reflexivity|]. rewrite inl_es_cons. cbn [elen]. congruence. Qed.
+
+Lemma tightest_ptype_of_level : forall o,
+  tightest (ptype_of_level (bin_level o)) = S (bin_level o) /\
+  ptype_of_level (bin_level o) <> P_dictorsetmaker.
+Proof. destruct o; split; cbn; (reflexivity || discriminate). Qed.
+
+Ltac refold_wf_at :=
+  repeat match goal with
+  | |- context [(?l <=? level ?a) && wf ?a] => change ((l <=? level a) && wf a) with (wf_at l a)
+  | H : context [(?l <=? level ?a) && wf ?a] |- _ =>
+      change ((l <=? level a) && wf a) with (wf_at l a) in H
+  end.
+
+Section InlWf.
+Variable rule : ptype -> bool.
+Variable x : N.
+Variable r : expr.
+Variable pt0 : ptype.
+Hypothesis Hr : wf_at 1 r = true.
+Hypothesis Hrule : forall p, p = pt0 \/ p <> P_dictorsetmaker -> rule p = false -> tightest p <= level r.
+
+Let ok (p : ptype) := p = pt0 \/ p <> P_dictorsetmaker.
+
+Ltac side :=
+  first [ assumption
+        | right; discriminate
+        | right; assumption
+        | cbn [tightest]; lia
+        | lia ].
+
+Lemma inl_wf_mut :
+  (forall e pt mid lv, ok pt -> lv <= tightest pt ->
+     wf_at lv e = true -> wf_at lv (inl rule x r pt mid e) = true) /\
+  (forall es pt l, ok pt -> l <= tightest pt ->
+     wf_es l es = true -> wf_es l (inl_es rule x r pt es) = true).
+Proof.
+  apply expr_exprs_ind; intros;
+    try match goal with o : binop |- _ => pose proof (tightest_ptype_of_level o) as [? ?] end;
+    try match goal with es : exprs |- _ => pose proof (seq_pt_ok es) as [? ?] end;
+    try match goal with es : exprs, mid : bool |- _ => pose proof (args_pt_ok mid es) as [? ?] end;
+    try match goal with mid : bool |- context [Sub] => destruct mid end;
+    rewrite ?inl_Tup, ?inl_Lst, ?inl_Call, ?inl_es_cons, ?inl_es_nil;
+    try match goal with H : wf_at _ _ = true |- _ => unfold wf_at in H end;
+    unfold wf_at; cbn [inl trailer_pt level wf wf_es] in *.
+  all: try match goal with |- context [if N.eqb ?v x then _ else _] => destruct (N.eqb v x) eqn:? end.
+  all: try match goal with |- context [if memN x ?ps then _ else _] => destruct (memN x ps) eqn:? end.
+  all: try match goal with |- context [if rule ?p then _ else _] => destruct (rule p) eqn:? end.
+  all: cbn [level wf]; rewrite ?elen_inl_es; refold_wf_at.
+  all: repeat match goal with
+         | H : _ && _ = true |- _ => apply andb_true_iff in H; destruct H
+         end.
+  all: repeat match goal with |- _ && _ = true => apply andb_true_intro; split end;
+    try assumption; try reflexivity.
+  all: try match goal with
+       | IH : forall pt mid lv, _ |- wf_at _ (inl _ _ _ _ _ _) = true => apply IH; side
+       | IH : forall pt l, _ |- wf_es _ (inl_es _ _ _ _ _) = true => apply IH; side
+       end.
+  match goal with
+  | Hk : ok ?p, Hf : rule ?p = false |- _ => pose proof (Hrule p Hk Hf)
+  end.
+  apply wf_at_iff in Hr. apply wf_at_iff. destruct Hr. split; [lia|assumption].
+Qed.
+
+Lemma inl_wf_gen : forall e pt mid lv, pt = pt0 \/ pt <> P_dictorsetmaker -> lv <= tightest pt ->
+  wf_at lv e = true -> wf_at lv (inl rule x r pt mid e) = true.
+Proof. exact (proj1 inl_wf_mut). Qed.
+
+Lemma inl_es_wf_gen : forall es pt l, pt = pt0 \/ pt <> P_dictorsetmaker -> l <= tightest pt ->
+  wf_es l es = true -> wf_es l (inl_es rule x r pt es) = true.
+Proof. exact (proj2 inl_wf_mut). Qed.
+End InlWf.
+
+Lemma inl_wf : forall rule x r pt0, wf_at 1 r = true ->
+  (forall p, p = pt0 \/ p <> P_dictorsetmaker -> rule p = false -> tightest p <= level r) ->
+  forall e mid lv, lv <= tightest pt0 -> wf_at lv e = true ->
+  wf_at lv (inl rule x r pt0 mid e) = true.
+Proof.
+  intros rule x r pt0 Hr Hrule e mid lv Hlv He.
+  apply (inl_wf_gen rule x r pt0 Hr Hrule); [left; reflexivity | assumption | assumption].
+Qed.
+
+(* ---------------------------------------- 8 inline as token substitution *)
+Lemma tsubst_app : forall x s a b, tsubst x s (a ++ b) = tsubst x s a ++ tsubst x s b.
+Proof.
+  intros x s a b. induction a as [|t a IH]; [reflexivity|].
+  destruct t; cbn [tsubst app]; try (rewrite IH; reflexivity).
+  destruct (N.eqb x0 x); rewrite IH; [rewrite app_assoc|]; reflexivity.
+Qed.
+
+Lemma tsubst_bind_toks : forall x s ps, tsubst x s (bind_toks ps) = bind_toks ps.
+Proof.
+  intros x s ps. induction ps as [|p ps IH]; [reflexivity|].
+  destruct ps as [|q ps]; [reflexivity|].
+  change (bind_toks (p :: q :: ps)) with (TBind p :: TS Comma :: bind_toks (q :: ps)).
+  cbn [tsubst]. rewrite IH. reflexivity.
+Qed.
+
+Ltac split_nobind :=
+  repeat match goal with
+  | H : _ && _ = true |- _ => apply andb_true_iff in H; destruct H
+  | H : negb _ = true |- _ => apply negb_true_iff in H
+  end.
+
+Section PrintInlConst.
+Variable rule : ptype -> bool.
+Variable x : N.
+Variable r : expr.
+Variable s : list token.
+Hypothesis Hs : forall pt, print (if rule pt then Paren r else r) = s.
+
+Lemma print_inl_const_mut :
+  (forall e pt mid, nobind x e = true ->
+     print (inl rule x r pt mid e) = tsubst x s (print e)) /\
+  (forall es pt, nobind_es x es = true ->
+     print_es (inl_es rule x r pt es) = tsubst x s (print_es es)).
+Proof.
+  apply expr_exprs_ind; intros;
+    rewrite ?inl_Tup, ?inl_Lst, ?inl_Call, ?inl_es_cons, ?inl_es_nil;
+    cbn [inl nobind nobind_es] in *; split_nobind;
+    repeat match goal with H : N.eqb _ x = false |- _ => rewrite H; clear H
+                      | H : memN x _ = false |- _ => rewrite H; clear H end.
+  22: {
+    match goal with |- context [inl_es _ _ _ _ ?es] => destruct es as [|e2 es'] end.
+    - rewrite inl_es_nil, !print_es_one. auto.
+    - rewrite (print_es_cons_ne _ (inl_es rule x r pt (ECons e2 es')))
+        by (rewrite elen_inl_es; discriminate).
+      rewrite (print_es_cons_ne _ (ECons e2 es')) by discriminate.
+      rewrite tsubst_app. cbn [tsubst].
+      match goal with IH : forall pt mid, _ -> print _ = _ |- _ => rewrite IH by assumption end.
+      match goal with IH : forall pt, _ -> print_es _ = _ |- _ => rewrite IH by assumption end.
+      reflexivity. }
+  1: { cbn [print tsubst]. destruct (N.eqb x0 x); [|reflexivity].
+       rewrite Hs, app_nil_r. reflexivity. }
+  all: cbn [print];
+    repeat first [ rewrite tsubst_app | rewrite tsubst_bind_toks | progress cbn [tsubst] ];
+    repeat match goal with
+           | IH : forall pt mid, _ -> print _ = _ |- _ => rewrite IH by assumption; clear IH
+           | IH : forall pt, _ -> print_es _ = _ |- _ => rewrite IH by assumption; clear IH
+           end; try reflexivity.
+Qed.
+End PrintInlConst.
+
+Lemma print_inl_always : forall x r e pt mid, nobind x e = true ->
+  print (inl always_rule x r pt mid e) = tsubst x (TS LPar :: print r ++ [TS RPar]) (print e).
+Proof.
+  intros x r e pt mid H.
+  apply (proj1 (print_inl_const_mut always_rule x r _ (fun _ => eq_refl))). assumption.
+Qed.
+
+Lemma print_inl_never : forall x r e pt mid, nobind x e = true ->
+  print (inl never_rule x r pt mid e) = tsubst x (print r) (print e).
+Proof.
+  intros x r e pt mid H.
+  apply (proj1 (print_inl_const_mut never_rule x r _ (fun _ => eq_refl))). assumption.
+Qed.
+
+(* ------------------------------------------------------------- theorems *)
+Lemma T1_grammar_is_print_of_wf : forall l ts e, D l ts e <-> (ts = print e /\ wf_at l e = true).
+Proof. exact D_iff. Qed.
+
+Lemma T3_inline_rule_sound_general : forall rule x r e l pt mid toks rtoks,
+  D l toks e -> D 1 rtoks r ->
+  (forall p, p = pt \/ p <> P_dictorsetmaker -> rule p = false -> tightest p <= level r) ->
+  l <= tightest pt ->
+  D l (print (inl rule x r pt mid e)) (inl rule x r pt mid e) /\
+  strip (inl rule x r pt mid e) = subst x (strip r) (strip e).
+Proof.
+  intros rule x r e l pt mid toks rtoks He Hr Hrule Hl.
+  apply D_inv in He. destruct He as [_ He]. apply D_inv in Hr. destruct Hr as [_ Hr].
+  split; [|apply inl_strip].
+  apply D_print. apply inl_wf; assumption.
+Qed.
+
+Lemma T2_inline_parens_preserve : forall x r e l pt mid toks rtoks,
+  D l toks e -> D 1 rtoks r -> nobind x e = true -> l <= tightest pt ->
+  D l (tsubst x (TS LPar :: rtoks ++ [TS RPar]) toks) (inl always_rule x r pt mid e) /\
+  strip (inl always_rule x r pt mid e) = subst x (strip r) (strip e).
+Proof.
+  intros x r e l pt mid toks rtoks He Hr Hnb Hl.
+  destruct (T3_inline_rule_sound_general always_rule x r e l pt mid toks rtoks He Hr) as [H1 H2];
+    [intros p _ Hp; discriminate Hp | assumption |].
+  apply D_inv in He. destruct He as [-> _]. apply D_inv in Hr. destruct Hr as [-> _].
+  split; [|assumption]. rewrite <- (print_inl_always x r e pt mid) by assumption. assumption.
+Qed.
+
+Lemma T4_inline_noparens_ok : forall x r e l pt mid toks rtoks,
+  D l toks e -> D 1 rtoks r -> pt <> P_dictorsetmaker -> l <= tightest pt ->
+  D l (inline_text new_rule false x r pt mid e) (inline_tree new_rule false x r pt mid e) /\
+  strip (inline_tree new_rule false x r pt mid e) = subst x (strip r) (strip e).
+Proof.
+  intros x r e l pt mid toks rtoks He Hr Hpt Hl. unfold inline_text, inline_tree.
+  apply (T3_inline_rule_sound_general new_rule x r e l pt mid toks rtoks); try assumption.
+  intros p Hp Hf.
+  assert (Hp' : p <> P_dictorsetmaker) by (destruct Hp; [subst; assumption | assumption]).
+  pose proof (new_rule_bare_slots p Hp' Hf).
+  apply D_inv in Hr. destruct Hr as [_ Hr]. apply wf_at_iff in Hr. lia.
+Qed.
+
+Lemma T4c_inline_tuple_rhs_ok : forall rule x es e l pt mid toks,
+  D l toks e -> wf (Tup es) = true -> l <= tightest pt ->
+  D l (inline_text rule true x (Tup es) pt mid e) (inline_tree rule true x (Tup es) pt mid e).
+Proof.
+  intros rule x es e l pt mid toks He Hw Hl. unfold inline_text, inline_tree.
+  apply D_inv in He. destruct He as [_ He].
+  assert (Hr : wf_at 1 (Tup es) = true)
+    by (apply wf_at_iff; split; [cbn [level]; lia | assumption]).
+  assert (Hrule : forall p, p = pt \/ p <> P_dictorsetmaker -> never_rule p = false ->
+                            tightest p <= level (Tup es))
+    by (intros p _ _; cbn [level]; apply tightest_le_15).
+  apply D_print. apply (inl_wf never_rule x (Tup es) pt Hr Hrule); assumption.
+Qed.
+
+Lemma T5_inline_old_rule_refuted : exists x r e parsed rho,
+  wf_at 1 e = true /\ wf_at 1 r = true /\ nobind x e = true /\
+  inline_text old_rule false x r P_expr_stmt false e = print parsed /\
+  D 1 (print parsed) parsed /\
+  ~ D 1 (inline_text old_rule false x r P_expr_stmt false e)
+        (inline_tree old_rule false x r P_expr_stmt false e) /\
+  ev rho parsed <> ev rho (subst x r e).
+Proof.
+  exists wit_x, wit_r, wit_e, wit_parsed, wit_env.
+  repeat split; try (vm_compute; reflexivity).
+  - apply D_print. vm_compute. reflexivity.
+  - intro H. apply D_inv in H. destruct H as [_ H]. vm_compute in H. discriminate H.
+  - vm_compute. discriminate.
+Qed.
+
+Lemma T5b_inline_old_rule_ok_above_expr : forall x r e l pt mid toks rtoks,
+  D l toks e -> D 6 rtoks r -> l <= tightest pt ->
+  D l (inline_text old_rule false x r pt mid e) (inline_tree old_rule false x r pt mid e).
+Proof.
+  intros x r e l pt mid toks rtoks He Hr Hl. unfold inline_text, inline_tree.
+  apply D_inv in Hr. destruct Hr as [_ Hr].
+  assert (Hr1 : D 1 (print r) r) by (apply D_print; apply (wf_at_le 6); [lia|assumption]).
+  apply (T3_inline_rule_sound_general old_rule x r e l pt mid toks (print r)); try assumption.
+  intros p _ Hf. pose proof (old_rule_bare_slots p Hf). apply wf_at_iff in Hr. lia.
+Qed.
+
+Lemma T5c_inline_dict_splat_refuted : exists x r,
+  wf_at 1 r = true /\ new_rule P_dictorsetmaker = false /\ wf_at 6 (Var x) = true /\
+  wf_at 6 (inline_tree new_rule false x r P_dictorsetmaker false (Var x)) = false.
+Proof. exists wit_x, wit_r. repeat split; vm_compute; reflexivity. Qed.
+
+Lemma T7_inline_meaning_preserved : forall rule rho x r e pt mid v,
+  ev rho r = Some v -> ev (upd rho x v) e = ev rho (inl rule x r pt mid e).
+Proof. intros. apply ev_inl. assumption. Qed.
+
+Lemma T8_extract_then_inline_identity : forall rule rho x s c c' pt mid v,
+  is_extraction x s c c' = true ->
+  strip (inl rule x s pt mid c') = strip c /\
+  (ev rho s = Some v -> ev (upd rho x v) c' = ev rho c).
+Proof.
+  intros rule rho x s c c' pt mid v H. unfold is_extraction in H. apply expr_eqb_eq in H.
+  assert (Hs : strip (inl rule x s pt mid c') = strip c) by (rewrite inl_strip; assumption).
+  split; [assumption|]. intro Hv.
+  rewrite (ev_inl rule rho x s v c' pt mid Hv).
+  rewrite <- ev_strip, Hs, ev_strip. reflexivity.
+Qed.
+
+Lemma T9_name_fits_every_slot : forall l x, l <= 15 -> D l [TName x] (Var x).
+Proof. intros l x H. apply (D_weaken 15); [assumption | apply D_name]. Qed.
+
+(* ------------------------------------------- 9 inline as a token-level splice *)
+Lemma parents_Tup : forall x pt mid es, parents x pt mid (Tup es) = parents_es x (seq_pt es) es.
+Proof. reflexivity. Qed.
+Lemma parents_Lst : forall x pt mid es, parents x pt mid (Lst es) = parents_es x (seq_pt es) es.
+Proof. reflexivity. Qed.
+Lemma parents_Call : forall x pt mid f args,
+  parents x pt mid (Call f args) = parents x P_atom_expr true f ++ parents_es x (args_pt mid args) args.
+Proof. reflexivity. Qed.
+Lemma parents_es_nil : forall x pt, parents_es x pt ENil = [].
+Proof. reflexivity. Qed.
+Lemma parents_es_cons : forall x pt e es,
+  parents_es x pt (ECons e es) = parents x pt false e ++ parents_es x pt es.
+Proof. reflexivity. Qed.
+
+Lemma count_name_app : forall x a b, count_name x (a ++ b) = count_name x a + count_name x b.
+Proof.
+  intros x a b. induction a as [|t a IH]; [reflexivity|].
+  destruct t; cbn [count_name app]; try assumption.
+  destruct (N.eqb x0 x); rewrite IH; reflexivity.
+Qed.
+
+Lemma count_name_bind_toks : forall x ps, count_name x (bind_toks ps) = 0.
+Proof.
+  intros x ps. induction ps as [|p ps IH]; [reflexivity|].
+  destruct ps as [|q ps]; [reflexivity|].
+  change (bind_toks (p :: q :: ps)) with (TBind p :: TS Comma :: bind_toks (q :: ps)).
+  cbn [count_name]. assumption.
+Qed.
+
+Lemma splice_app : forall x s d1 d2 t1 t2, length d1 = count_name x t1 ->
+  splice x (d1 ++ d2) s (t1 ++ t2) = splice x d1 s t1 ++ splice x d2 s t2.
+Proof.
+  intros x s d1 d2 t1. revert d1 d2.
+  induction t1 as [|t t1 IH]; intros d1 d2 t2 H.
+  - destruct d1; [reflexivity | discriminate H].
+  - destruct t; cbn [count_name] in H; cbn [splice app]; try (rewrite IH by assumption; reflexivity).
+    destruct (N.eqb x0 x).
+    + destruct d1 as [|d d1]; [discriminate H|]. cbn [app length] in *.
+      rewrite IH by lia. rewrite app_assoc. reflexivity.
+    + rewrite IH by assumption. reflexivity.
+Qed.
+
+Lemma splice_app_r : forall x s d t1 t2, length d = count_name x t1 ->
+  splice x d s (t1 ++ t2) = splice x d s t1 ++ splice x [] s t2.
+Proof.
+  intros x s d t1 t2 H. rewrite <- (app_nil_r d) at 1. apply splice_app. assumption.
+Qed.
+
+Lemma splice_bind_toks_app : forall x s d ps t,
+  splice x d s (bind_toks ps ++ t) = bind_toks ps ++ splice x d s t.
+Proof.
+  intros x s d ps t. induction ps as [|p ps IH]; [reflexivity|].
+  destruct ps as [|q ps]; [reflexivity|].
+  change (bind_toks (p :: q :: ps)) with (TBind p :: TS Comma :: bind_toks (q :: ps)).
+  cbn [splice app]. rewrite IH. reflexivity.
+Qed.
+
+Lemma parents_length_mut : forall x,
+  (forall e pt mid, nobind x e = true -> length (parents x pt mid e) = count_name x (print e)) /\
+  (forall es pt, nobind_es x es = true -> length (parents_es x pt es) = count_name x (print_es es)).
+Proof.
+  intro x. apply expr_exprs_ind; intros;
+    rewrite ?parents_Tup, ?parents_Lst, ?parents_Call, ?parents_es_cons, ?parents_es_nil;
+    cbn [parents nobind nobind_es] in *; split_nobind;
+    repeat match goal with H : N.eqb _ x = false |- _ => rewrite H; clear H
+                      | H : memN x _ = false |- _ => rewrite H; clear H end.
+  22: {
+    match goal with |- context [parents_es _ _ ?es] => destruct es as [|e2 es'] end.
+    - rewrite parents_es_nil, print_es_one, app_nil_r. auto.
+    - rewrite (print_es_cons_ne _ (ECons e2 es')) by discriminate.
+      rewrite count_name_app, app_length. cbn [count_name]. auto. }
+  1: { cbn [print count_name]. destruct (N.eqb x0 x); reflexivity. }
+  all: cbn [print];
+    repeat first [ rewrite count_name_app | rewrite app_length | rewrite count_name_bind_toks
+                 | progress cbn [count_name length] ];
+    repeat match goal with
+           | IH : forall pt mid, _ -> length _ = _ |- _ => rewrite IH by assumption; clear IH
+           | IH : forall pt, _ -> length _ = _ |- _ => rewrite IH by assumption; clear IH
+           end; try reflexivity; try lia.
+Qed.
+
+Lemma parents_length : forall x e pt mid, nobind x e = true ->
+  length (parents x pt mid e) = count_name x (print e).
+Proof. intro x. exact (proj1 (parents_length_mut x)). Qed.
+
+Lemma parents_es_length : forall x es pt, nobind_es x es = true ->
+  length (parents_es x pt es) = count_name x (print_es es).
+Proof. intro x. exact (proj2 (parents_length_mut x)). Qed.
+
+Ltac len_side :=
+  rewrite map_length; first [ apply parents_length | apply parents_es_length ]; assumption.
+
+Lemma print_inl_splice_mut : forall rule x r,
+  (forall e pt mid, nobind x e = true ->
+     print (inl rule x r pt mid e) = splice x (map rule (parents x pt mid e)) (print r) (print e)) /\
+  (forall es pt, nobind_es x es = true ->
+     print_es (inl_es rule x r pt es) = splice x (map rule (parents_es x pt es)) (print r) (print_es es)).
+Proof.
+  intros rule x r. apply expr_exprs_ind; intros;
+    rewrite ?inl_Tup, ?inl_Lst, ?inl_Call, ?inl_es_cons, ?inl_es_nil;
+    rewrite ?parents_Tup, ?parents_Lst, ?parents_Call, ?parents_es_cons, ?parents_es_nil;
+    cbn [inl parents nobind nobind_es] in *; split_nobind;
+    repeat match goal with H : N.eqb _ x = false |- _ => rewrite H; clear H
+                      | H : memN x _ = false |- _ => rewrite H; clear H end.
+  22: {
+    match goal with |- context [inl_es _ _ _ _ ?es] => destruct es as [|e2 es'] end.
+    - rewrite inl_es_nil, parents_es_nil, !print_es_one, app_nil_r. auto.
+    - rewrite (print_es_cons_ne _ (inl_es rule x r pt (ECons e2 es')))
+        by (rewrite elen_inl_es; discriminate).
+      rewrite (print_es_cons_ne _ (ECons e2 es')) by discriminate.
+      rewrite map_app, splice_app by len_side. cbn [splice].
+      match goal with IH : forall pt mid, _ -> print _ = _ |- _ => rewrite IH by assumption end.
+      match goal with IH : forall pt, _ -> print_es _ = _ |- _ => rewrite IH by assumption end.
+      reflexivity. }
+  1: { cbn [print splice]. destruct (N.eqb x0 x) eqn:E; cbn [map splice]; [|reflexivity].
+       rewrite app_nil_r. destruct (rule pt); reflexivity. }
+  all: cbn [print];
+    repeat first [ rewrite map_app
+                 | rewrite splice_app by len_side
+                 | rewrite splice_app_r by len_side
+                 | rewrite splice_bind_toks_app
+                 | progress cbn [splice map] ];
+    repeat match goal with
+           | IH : forall pt mid, _ -> print _ = _ |- _ => rewrite IH by assumption; clear IH
+           | IH : forall pt, _ -> print_es _ = _ |- _ => rewrite IH by assumption; clear IH
+           end; try reflexivity.
+Qed.
+
+Lemma print_inl_splice : forall rule x r e pt mid, nobind x e = true ->
+  print (inl rule x r pt mid e) = splice x (map rule (parents x pt mid e)) (print r) (print e).
+Proof. intros rule x r. exact (proj1 (print_inl_splice_mut rule x r)). Qed.
+
+Lemma T10_inline_text_is_splice : forall rule x r e pt mid, nobind x e = true ->
+  inline_text rule false x r pt mid e = splice x (map rule (parents x pt mid e)) (print r) (print e).
+Proof. intros. unfold inline_text. apply print_inl_splice. assumption. Qed.
+
+Lemma T6_extract_inline_subst : forall rho x s c v,
+  ev rho s = Some v -> ev (upd rho x v) c = ev rho (subst x s c).
+Proof. intros. apply subst_lemma. assumption. Qed.
